@@ -15,7 +15,7 @@
 #define VS_MAXT      40
 
 /* kinds of choice point */
-enum { CP_SCHED = 0, CP_RENV = 1, CP_WENV = 2, CP_SIGPICK = 3, CP_SIGORDER = 4 };
+enum { CP_SCHED = 0, CP_RENV = 1, CP_WENV = 2, CP_SIGPICK = 3, CP_SIGORDER = 4, CP_FENV = 5 };
 
 /* outcome kinds */
 enum {
@@ -50,6 +50,7 @@ struct vs_config {
   unsigned renv;                 /* bit set of read answers offered: see RENV_* */
   unsigned wenv;                 /* bit set of write answers offered */
   unsigned sigs;                 /* external signals offered: bit0 SIGINT bit1 SIGTERM */
+  unsigned fenv;                 /* file operations: bit0 offer errno failures, bit1 offer SIGKILL before/after */
   unsigned spurious;             /* offer spurious cond wake-ups (count) */
   size_t rfrag;                  /* >0: every read returns at most rfrag bytes */
   size_t wfrag;                  /* >0: every write takes at most wfrag bytes */
